@@ -1,7 +1,7 @@
 """C08 - K is the area-weighted mean transmittance of the thermal envelope."""
 import itertools
 
-from ..cfgq import Scope, returned_nodes, bool_taken
+from ..cfgq import Scope, returned_nodes, bool_taken, iter_chain
 from ..exprs import strip, short_callee, show, leaf_name, walk, origin_desc
 from ..facts import AnalysisError
 from ..formulas import LeafMap, compare, fallback_chain, updates, FNormalizer
@@ -127,11 +127,79 @@ def winprops_inherit(ctx, prog):
             ctx.violation("c08.prov", key, "K selects windows by their own %s, but WinProps.%s is %s (closure value %s), not the wall's" % (fld, fld, d[:100], r), ep.loc(ln))
 
 
+def check_order_independence(ctx, prog, rule="c08.order"):
+    """"K does not change when elements are reordered": nothing K is computed from may pick *the first* of several elements of a model list.
+    Every first-match selection (find / find_map / position / first / last / get(0) / [0]) in the code K depends on - EnergyProps::from, KData::from, the
+    U-value functions and what they call in bemodel, the ray tracing apart - is classified: a search by a unique key (`x.id == wanted`) returns the same
+    element in any order; a selection over a sorted map does not depend on the list order; anything else returns whichever matching element comes first."""
+    from ..mir import callee_name as _cn
+    roots = [prog.method("energy::indicators::k::KData", "convert::From", "from"), prog.method("energy::props::EnergyProps", "convert::From", "from"),
+             prog.method("types::opaques::Wall", None, "u_value")]
+    seen = ctx.cg.reachable([r.id for r in roots])
+    n = 0
+    for fid in sorted(seen):
+        f = prog.fns[fid]
+        if f.crate != "bemodel" or f.raw.get("impl_derived") or "raytracing" in f.path or "energy::radiation" in f.path or "climatedata" in f.path:
+            continue
+        sc = None
+        cnt = {}
+        for b, t in f.body.calls():
+            nm = _cn(t) or ""
+            s_ = short_callee(nm)
+            if s_ not in ("find", "find_map", "position", "rfind", "rposition", "first", "last", "get", "index", "nth", "max_by", "min_by", "max_by_key", "min_by_key") or not t["args"]:
+                continue
+            sc = sc or Scope(prog, f)
+            recv = strip(sc.operand(t["args"][0]))
+            if s_ in ("get", "index"):
+                if len(t["args"]) != 2 or "Map" in nm or "Set" in nm:
+                    continue
+                idx = strip(sc.operand(t["args"][1]))
+                if not (idx[0] == "k" and idx[1] == "0"):
+                    continue
+            if s_ == "nth" and not (len(t["args"]) == 2 and strip(sc.operand(t["args"][1]))[0] == "k"):
+                continue
+            txt = show(recv)
+            # what is being searched: a list of model elements (or a filtered copy of one)?
+            src = iter_chain(recv)
+            sname = (src.source_name() or origin_desc(strip(src.source)) or "")
+            import re as _re
+            over_model_list = any(_re.search(r"\b%s\b" % x, txt) for x in ("walls", "spaces", "windows", "thermal_bridges", "shades", "wallcons", "wincons", "materials", "glasses",
+                                                                            "frames", "year", "week", "day", "loads", "thermostats", "layers"))
+            if not over_model_list or "values(" in txt or "keys(" in txt or "BTreeMap" in nm:
+                continue
+            n += 1
+            desc = "%s|%s" % (f.path.split("bemodel::")[-1].split("::{")[0], s_)
+            k_ = cnt.get(desc, 0)
+            cnt[desc] = k_ + 1
+            key = "%s|%s%s" % (rule, desc, "|%d" % k_ if k_ else "")
+            loc = f.loc(t.get("ln"))
+            unique = False
+            if s_ in ("find", "find_map", "position", "rfind", "rposition") and len(t["args"]) == 2:
+                r = closure_return(prog, sc, sc.operand(t["args"][1]), ("elem", "E", ()))
+                if r is not None:
+                    r = strip(r)
+                    sides = []
+                    if r[0] == "call" and short_callee(r[1]) == "eq" and len(r[2]) == 2:
+                        sides = [strip(r[2][0]), strip(r[2][1])]
+                    elif r[0] == "bin" and r[1] == "Eq":
+                        sides = [strip(r[2]), strip(r[3])]
+                    names = [leaf_name(x) or "" for x in sides]
+                    if any(nm_ in ("E[].id", "E.id") or nm_.endswith("[].id") and nm_.startswith("E") for nm_ in names) and not any("E" in (nm2 or "")[:1] and nm2 not in ("E[].id", "E.id") for nm2 in names):
+                        unique = True
+            if unique:
+                ctx.ok(rule, key, "`%s` by unique id: the same element whatever the order" % s_, loc)
+            else:
+                ctx.violation(rule, key, "`%s` over %s picks the first element that matches a test several elements can pass (%s): which one it is depends on the order of the "
+                              "model's lists, and so does everything computed from it (net height, characteristic dimension, U, K)" % (s_, sname or txt[:40], txt[:80]), loc)
+    ctx.floor(rule, "first-match selections over model lists in the code K depends on", n, 8)
+
+
 def run(ctx):
     prog = ctx.prog
     f = prog.method("energy::indicators::k::KData", "convert::From", "from")
     from ..loops import check_no_early_exit
     check_no_early_exit(ctx, "c08.loop", prog, f, "K")
+    check_order_independence(ctx, prog)
     root = Scope(prog, f)
     bt = [v["name"] for v in prog.adt("bemodel::types::common::BoundaryType")["variants"]]
     tilts = [v["name"] for v in prog.adt("bemodel::types::common::Tilt")["variants"]]
